@@ -290,6 +290,7 @@ def _strategy(tier):
         G.problem(min_streams=2, max_streams=mx, shape="mixed", multi_zone=True, options=opts),
         G.problem(min_streams=2, max_streams=mx, options=opts, thirds=False),
         G.problem(min_streams=4, max_streams=mx, shape="mixed", with_utilities=False, options=opts, iso_share=0.0),
+        G.community_problem(),
     )
 
 
